@@ -375,7 +375,7 @@ impl<'a, 'src> ExpressionParser<'a, 'src>
 		let size = self.parse_leaf()?;
 
 		Ok(expr::Expr::SliceShort(
-			tk_grave_span.join(size.span()),
+			inner.span().join(tk_grave_span).join(size.span()),
 			size.span(),
 			Box::new(size),
 			Box::new(inner)))
